@@ -2,6 +2,7 @@ import NodisVerif.Proofs.C20Finds
 import NodisVerif.Proofs.C20Keys
 import NodisVerif.Proofs.C20ZStoreEx
 import NodisVerif.Proofs.FloatDecRegions
+import NodisVerif.Proofs.GeoAdd
 /-
   C20 — The change feed replays on a replica.
 
@@ -424,5 +425,42 @@ example : (Call.incrByFloat [107] 0x3FB999999999999A).WF ∧ (Call.hincrByFloat 
   refine ⟨?_, ?_⟩
   · show True; trivial
   · show ([102] : Bytes).length + 1040 < 2 ^ 63; decide
+/-! ### GEOADD's records (work package D)
+
+  `GeoAdd` (Model/Handler4.lean `geoAdd`) emits one ZADD record per item - `patch.OpZAdd{Key, Member,
+  Score: float64(hash)}` - after the last `ZAdd`.  With one item the call IS `ZAdd(key, member, score)`
+  (`C04.geoadd_is_zadd`: same store, same records), so `replay_call_partial` for the ZAdd call applies to it
+  verbatim; for several items the records are, in order, those of the ZAdd calls item by item.  Tie: `api GeoAdd`
+  in the zset family of this check (records handed to a real watcher = `Feed.emission`; closed loop). -/
+
+section geoadd
+open NodisVerif.Proofs.GeoAdd NodisVerif.Handler4
+
+/-- with a watcher attached, GEOADD on a sorted-set key (or a missing key) appends exactly one ZADD record per
+    item, in argument order (the feed is kept newest first), each naming the key, the member and the score stored -/
+theorem geoadd_emits_zadd_records (s : MState) (now : Int) (key : Bytes) (it : Bytes × F64) (items : List (Bytes × F64))
+    (hl : s.listeners = true) (z : ZSet)
+    (hz : Api.asZSet (writeKey s now key (some (.zset DsZSet.empty))).1 key = some z) :
+    (geoAdd s now key (it :: items)).1.feed = ((it :: items).map fun i => Api.opZAdd key i.1 i.2).reverse ++ s.feed := by
+  rw [geoAdd_eq, hz]
+  dsimp only
+  have hf : fl (signal (Api.setVal (writeKey s now key (some (.zset DsZSet.empty))).1 key (.zset (zaddAll z (it :: items)).1)) key) = fl s := by
+    rw [fl_signal, fl_setVal, fl_writeKey]
+  have hl' : (signal (Api.setVal (writeKey s now key (some (.zset DsZSet.empty))).1 key (.zset (zaddAll z (it :: items)).1)) key).listeners = true :=
+    (congrArg Prod.snd hf).trans hl
+  rw [emitAll_feed key _ _ hl']
+  exact congrArg (_ ++ ·) (congrArg Prod.fst hf)
+
+/-- … and each of them is the record `ZAdd(key, member, score)` emits -/
+theorem geoadd_record_is_zadd_record (s : MState) (now : Int) (key m : Bytes) (sc : F64) :
+    (geoAdd s now key [(m, sc)]).1.feed = (Api.zadd s now key m sc).1.feed := by
+  rw [geoAdd_single]
+
+/-- hypotheses satisfiable: a fresh store with a watcher, two items -/
+example : ∃ z, Api.asZSet (writeKey { listeners := true } 0 [103] (some (.zset DsZSet.empty))).1 [103] = some z := ⟨_, rfl⟩
+example : ((geoAdd { listeners := true } 0 [103] [([97], 5), ([98], 7)]).1.feed.map fun r => (r.typ, r.key, r.args)) =
+    [(26, [103], ["62", "7"]), (26, [103], ["61", "5"])] := by decide +kernel
+
+end geoadd
 
 end NodisVerif.C20
